@@ -227,7 +227,8 @@ class ZipIter(IterBase):
 
 class MapIter(IterBase):
     def __init__(self, inner, closure):
-        self.inner, self.closure = inner, closure
+        self.inner = inner
+        self.closure = closure if isinstance(closure, Cell) else Cell(closure)
 
     def next(self, it):
         x = self.inner.next(it)
@@ -236,7 +237,7 @@ class MapIter(IterBase):
         return it.call_closure(self.closure, [x])
 
     def clone(self):
-        return MapIter(self.inner.clone(), clone_value(self.closure))
+        return MapIter(self.inner.clone(), Cell(clone_value(self.closure.v)))
 
 
 class ClonedIter(IterBase):
@@ -337,6 +338,19 @@ def strip_path(name):
     m = re.match(r"^([\w:]+)", name)
     base = m.group(1) if m else name
     return base.rstrip(":").split("::")[-1]
+
+
+def strip_generics(s):
+    """'piecewise::Segment::<T>::f::<'_, &Vec<X>>' -> 'piecewise::Segment::f' (balanced removal of every ::<...> group)."""
+    out, i, n = [], 0, len(s)
+    while i < n:
+        if s.startswith("::<", i):
+            j = mp.find_matching(s, i + 2)
+            i = j + 1
+            continue
+        out.append(s[i])
+        i += 1
+    return "".join(out)
 
 
 def parse_type(s):
@@ -647,12 +661,15 @@ class Interp:
         raise Unsupported("switchInt on %r" % (v,))
 
     def call_closure(self, closure, args):
+        """closure: a closure Struct, or a Cell holding one (FnMut state persists across calls through the Cell)."""
+        cell = closure if isinstance(closure, Cell) else Cell(closure)
+        closure = cell.v
         if not isinstance(closure, Struct) or closure.name not in self.p.closures:
             raise Unsupported("closure %r" % (closure,))
         f = self.p.closures[closure.name]
         # closure bodies take (&mut closure | closure, args...) ; args may be passed spread or as one tuple
         env_ty = f.params[0][1]
-        env = Ref(Cell(closure)) if env_ty.strip().startswith("&") else closure
+        env = Ref(cell) if env_ty.strip().startswith("&") else closure
         if len(f.params) - 1 == len(args):
             return self.call_function(f, [env] + args)
         if len(args) == 1 and isinstance(args[0], Tuple) and len(f.params) - 1 == len(args[0].fields):
@@ -919,8 +936,7 @@ class Interp:
                 raise Unsupported("no crate impl for %s with args %r" % (callee[:120], [type(a).__name__ for a in args]))
             return self.call_function(f, args)
         # free function / inherent associated function of the crate
-        name = re.sub(r"::<.*>$", "", callee)
-        name = re.sub(r"<[^<>]*>", "", name)  # drop generic args in the middle (Segment::<T>::f)
+        name = strip_generics(callee)
         seg = name.split("::")[-1]
         cands = [f for f in self.p.by_method.get(seg, []) if len(f.params) == len(args)]
         exact = [f for f in cands if f.name == name or f.name.endswith("::" + name)]
